@@ -25,6 +25,12 @@ def gen_case(rng, tier):
         c = rng.choice([x for x in [0, 2, 3, 4, 5, 6] if 10 * (x if x > 1 else 3) <= q])
         ceff = c if c > 1 else 3
     p = rng.randint(1, 3) if tier == "quick" else rng.randint(1, 20)
+    if rng.random() < 0.25:
+        # the resource first carries a rule of another kind with the same statistic interval (a throttling rule keeps no
+        # statistic, a reject rule does): the warm-up rule that replaces it must get a working statistic (seed C08-e)
+        ops.append("flow.load res=r rules=%s" % rng.choice(["t:5:0:d:t:0:0:500", "t:5:1000:d:t:0:0:0", "j:%d:0" % q]))
+        if rng.random() < 0.5:
+            ops += ["build e=9001 res=r batch=1 dir=out", "exit e=9001", "adv ms=1500"]
     ops.append("flow.load res=r rules=w:%d:0:w:r:%d:%d:0" % (q, p, c))
     ops.append("adv ms=%d" % rng.choice([0, 0, 137, 500, 999]) if rng.random() < 0.7 else "adv ms=1")
     profile = rng.choice(["sat", "sat", "onoff", "onoff", "below", "at"])
